@@ -163,7 +163,7 @@ Record tstate := mkT {
   t_active : list (nat * key);
   t_deps : list ((nat * key) * depstate);
   t_plain : list (nat * Q);
-  t_stable : bool                   (* GHOST (not in the code): see tr_node/NRepeat; never influences the commands *) }.
+  t_stable : bool                   (* unused since the repair of `repetition-entry-state` (was the ghost guard of that finding); always true *) }.
 
 Definition t0 : tstate := mkT 0 [] [] [] [] true.
 
@@ -308,22 +308,13 @@ Fixpoint cmds_eqb (a b : list cmd) : bool :=
   | _, _ => false
   end.
 
-(* GHOST only: syntactic identity of command lists (numerals compared by numerator and denominator) *)
-Definition q_same (a b : Q) : bool := (Qnum a =? Qnum b) && Pos.eqb (Qden a) (Qden b).
-Definition cmd_same (a b : cmd) : bool :=
-  match a, b with
-  | CSet c v k, CSet c' v' k' | CInc c v k, CInc c' v' k' => Nat.eqb c c' && q_same v v' && key_eqb k k'
-  | CWait d, CWait d' => q_same d d'
-  | CLabel i n, CLabel i' n' => (i =? i') && (n =? n')
-  | CJmp i, CJmp i' => i =? i'
-  | _, _ => false
-  end.
-Fixpoint cmds_same (a b : list cmd) : bool :=
-  match a, b with
-  | [], [] => true
-  | x :: a', y :: b' => cmd_same x y && cmds_same a' b'
-  | _, _ => false
-  end.
+(* _TranslationState._entry_state_unchanged_since (repair of `repetition-entry-state`): every active register, plain
+   voltage and register state known at the loop entry (snapshot = st) still has the same value (python ==) in st1 *)
+Definition entry_unchanged (st st1 : tstate) : bool :=
+  forallb (fun ck : nat * key => opt_key_is (alookup Nat.eqb (fst ck) (t_active st1)) (snd ck)) (t_active st) &&
+  forallb (fun cv : nat * Q => opt_q_is (alookup Nat.eqb (fst cv) (t_plain st1)) (snd cv)) (t_plain st) &&
+  forallb (fun ce : (nat * key) * depstate =>
+             match alookup ck_eqb (fst ce) (t_deps st1) with Some e => depstate_eqb e (snd ce) | None => false end) (t_deps st).
 
 (* add_node *)
 Fixpoint tr_node (n : node) (st : tstate) {struct n} : res (list cmd * tstate) :=
@@ -341,16 +332,9 @@ Fixpoint tr_node (n : node) (st : tstate) {struct n} : res (list cmd * tstate) :
       let idx := t_label st in
       let? '(cs1, st1) := tr_list body (with_label st (idx + 1)) in
       let post := get_dependency_state st1 ds in
-      if set_eqb pre post then
-        (* GHOST: a loop of >= 2 passes replays cs1 from the state the body leaves behind; record whether translating
-           the body from that state would have given the same commands, and whether the repetitions nested in the body
-           are stable in that second translation as well (the code never checks this) *)
-        let stable := if count <=? 1 then true
-                      else match tr_list body (with_label st1 (idx + 1)) with
-                           | Ok (cs1', st1') => cmds_same cs1 cs1' && t_stable st1'
-                           | Err _ => false
-                           end in
-        Ok (CLabel idx count :: cs1 ++ [CJmp idx], with_stable st1 (t_stable st1 && stable))
+      if set_eqb pre post && entry_unchanged st st1 then
+        (* the commands translated against the entry state can be replayed from the state the body leaves behind *)
+        Ok (CLabel idx count :: cs1 ++ [CJmp idx], st1)
       else
         if 0 <? count - 1 then
           let? '(cs2, st2) := tr_list body st1 in
@@ -380,7 +364,7 @@ Fixpoint tr_nodes (l : list node) (st : tstate) : res (list cmd * tstate) :=
 Definition translate (prog : list node) : res (list cmd) :=
   let? '(cs, _) := tr_nodes prog t0 in Ok cs.
 
-(* GHOST guard: no repetition loop replays commands that depend on the register state at the loop entry *)
+(* former ghost guard of `repetition-entry-state`; constantly true for the repaired translator *)
 Definition rep_stable (prog : list node) : bool :=
   match tr_nodes prog t0 with Ok (_, st) => t_stable st | Err _ => true end.
 Definition rep_stable_src (s : src) : bool :=
